@@ -1963,3 +1963,18 @@ def blocks_in_output_order(run, R="MPT"):
                 fields = {x for x in fields if not x.isdigit()}
     run.check(fields == {"offset"}, R, R + "|get-blocks|sorted-by-offset", f.loc(), "get_blocks walks the items sorted by their output offset",
               ("get_blocks sorts the emitted items by %s, not by their output offset: with banks whose addresses are not in the order of their output offsets, neighbouring items are not recognised as one block and blocks come out in the wrong order (Intel HEX records dropped or misplaced)" % sorted(fields)) if fields is not None else "mechanism not found: the sort of the emitted items in get_blocks")
+
+
+def smallest_by_resolved_size(run, R="REJ"):
+    """`the smallest encoding wins` compares the sizes of the encodings that were just resolved: the selection in resolve_encoding
+    reads the `size` of each resolved value, never the size the matcher worked out beforehand from the rule text alone
+    (`encoding_size`, which is 0 when it cannot be computed statically)"""
+    import json
+    f = run.anchor(R, "instruction::resolve_encoding")
+    if f is None:
+        return
+    fam = [g for g in run.prog.real_fns() if (g.raw.get("root") or g.id) == f.id]
+    reads_size = sum(1 for g in fam if g.kind == "Closure" and '"name": "size"' in json.dumps(g.raw.get("blocks")))
+    static = [g.loc() for g in fam if '"name": "encoding_size"' in json.dumps(g.raw.get("blocks"))]
+    run.check(reads_size >= 2 and not static, R, R + "|smallest|by-resolved-size", f.loc(), "the smallest encoding is chosen by the sizes of the resolved encodings (%d reader(s))" % reads_size,
+              "resolve_encoding chooses the smallest candidate by the size the matcher pre-computed from the rule text (%s): that size is 0 whenever it is not statically computable (a production that calls a function), so a longer encoding wins over a shorter one" % (", ".join(static) or "readers of the resolved size not found"))
